@@ -178,6 +178,55 @@ def operand_provenance_family(rng):
     return out
 
 
+def rhs_side_effect_family(rng):
+    """`x[i1]..[in] = e` where evaluating `e` changes what the left-hand side denotes: it re-binds the root variable,
+    replaces a container on the path, changes a variable used in an index, or grows / shrinks the target.  The value is
+    computed first, then the path is resolved (in the state the right-hand side left behind): afterwards a read of the
+    same path yields the assigned value and a detached container keeps what it had"""
+    out = []
+    V = G.var
+    scen = []
+    # 1. root re-bound by the right-hand side
+    scen.append(("rebind-root", [("decl", "টেবিল", G.lst(G.num(0))),
+                                  ("func", "পরের", [], [("assign", "টেবিল", [], G.bin_("+", V("টেবিল"), G.lst(G.num(0)))),
+                                                        ("return", G.bin_("*", G.call("_লিস্ট-লেন", V("টেবিল")), G.num(10)))]),
+                                  ("decl", "আগের", V("টেবিল")),
+                                  ("assign", "টেবিল", [G.num(0)], G.call("পরের")), ("print", G.idx(V("টেবিল"), G.num(0))), ("print", V("টেবিল")), ("print", V("আগের"))]))
+    # 2. intermediate list replaced, old one still aliased
+    scen.append(("replace-inner-list", [("decl", "গ্রিড", G.lst(G.lst(G.num(1), G.num(2)), G.lst(G.num(3), G.num(4)))), ("decl", "পুরনো", G.idx(V("গ্রিড"), G.num(0))),
+                                         ("func", "রিসেট", [], [("assign", "গ্রিড", [G.num(0)], G.lst(G.num(0), G.num(0))), ("return", G.num(7))]),
+                                         ("assign", "গ্রিড", [G.num(0), G.num(1)], G.call("রিসেট")),
+                                         ("print", G.idx(G.idx(V("গ্রিড"), G.num(0)), G.num(1))), ("print", V("গ্রিড")), ("print", V("পুরনো"))]))
+    # 3. record on the path replaced
+    scen.append(("replace-inner-record", [("decl", "কনফিগ", G.rec((G.s("opts"), G.rec((G.s("n"), G.num(1)))))), ("decl", "আগের", G.idx(V("কনফিগ"), G.s("opts"))),
+                                           ("func", "নতুন", [], [("assign", "কনফিগ", [G.s("opts")], G.rec((G.s("n"), G.num(0)))), ("return", G.num(9))]),
+                                           ("assign", "কনফিগ", [G.s("opts"), G.s("n")], G.call("নতুন")),
+                                           ("print", G.idx(G.idx(V("কনফিগ"), G.s("opts")), G.s("n"))), ("print", G.idx(V("আগের"), G.s("n")))]))
+    # 4. index variable advanced by the right-hand side
+    scen.append(("advance-index", [("decl", "বাফার", G.lst(G.num(0), G.num(0), G.num(0))), ("decl", "পজ", G.num(0)),
+                                    ("func", "পড়ো", [], [("assign", "পজ", [], G.bin_("+", V("পজ"), G.num(1))), ("return", G.num(5))]),
+                                    ("assign", "বাফার", [V("পজ")], G.call("পড়ো")), ("print", G.idx(V("বাফার"), V("পজ"))), ("print", V("বাফার"))]))
+    # 5. the target grows / shrinks while the value is computed
+    scen.append(("grow-target", [("decl", "সারি", G.lst(G.num(1))),
+                                  ("func", "বাড়াও", [], [("expr", G.call("_লিস্ট-পুশ", V("সারি"), G.num(2))), ("return", G.num(8))]),
+                                  ("assign", "সারি", [G.num(1)], G.call("বাড়াও")), ("print", V("সারি"))]))
+    scen.append(("shrink-target", [("decl", "সারি", G.lst(G.num(1), G.num(2))),
+                                    ("func", "কমাও", [], [("expr", G.call("_লিস্ট-পপ", V("সারি"))), ("return", G.num(8))]),
+                                    ("print", G.s("আগে")), ("assign", "সারি", [G.num(1)], G.call("কমাও")), ("print", V("সারি"))]))
+    # 6. the same inside a function on a parameter, and with the side effect in an index expression instead
+    scen.append(("index-expression-effect", [("decl", "বাফার", G.lst(G.num(0), G.num(0), G.num(0))), ("decl", "পজ", G.num(0)),
+                                              ("func", "পরের-ঘর", [], [("assign", "পজ", [], G.bin_("+", V("পজ"), G.num(1))), ("return", V("পজ"))]),
+                                              ("assign", "বাফার", [G.call("পরের-ঘর")], G.bin_("*", V("পজ"), G.num(10))), ("print", V("বাফার")), ("print", V("পজ"))]))
+    scen.append(("param-rebind", [("func", "কাজ", ["ত"], [("decl", "পুরনো", V("ত")),
+                                                          ("func", "ভিতর", [], [("return", G.num(3))]),
+                                                          ("assign", "ত", [G.num(0)], G.call("ভিতর")), ("return", V("পুরনো"))]),
+                                   ("decl", "ক", G.lst(G.num(1), G.num(2))), ("print", G.call("কাজ", V("ক"))), ("print", V("ক"))]))
+    for name, prog in scen:
+        for mode in ("lines", "oneline"):
+            out.append(prog_case("rhs-side-effect", prog, mode=mode, info={"scenario": name}))
+    return out
+
+
 def cases(rng, tier, stats):
     out = []
     n = 15000 if tier == "thorough" else 600
@@ -260,6 +309,9 @@ def cases(rng, tier, stats):
     stats["programs"] = n
     stats["with_deep_write"] = deep
     stats["self_concat_family"] = fam
+    se = rhs_side_effect_family(rng)
+    out += se
+    stats["rhs_side_effect_family"] = len(se)
     op = operand_provenance_family(rng)
     out += op
     stats["operand_provenance_family"] = len(op)
